@@ -5,6 +5,7 @@ every sub-block under the three split modes and with rules on/off; (V) TLC (spec
 every linearization of the specification's memory/storage/hash operations consistent with the declared
 dependencies and data flow, on every grid state, and compares with the concrete run of the sub-block
 (spec/EVM.tla); two operations enabled together must commute on the current state (OverlapOrdered)."""
+import re
 import time
 
 import common
@@ -16,6 +17,29 @@ import pool
 
 OPTSETS = [("default", []), ("norules", ["-no-simplification"]), ("storage", ["-storage"]), ("partition", ["-partition"]),
            ("storage-norules", ["-storage", "-no-simplification"]), ("partition-norules", ["-partition", "-no-simplification"])]
+
+
+def memdeps_model(tier):
+    """(M) spec/MemDeps.tla: ordering every pair of conflicting accesses (then reducing transitively) is sufficient for
+    every instance of three (thorough: four) accesses; the variant that stops at the closest conflicting store is refuted
+    by TLC, and every instance on which it fails comes back as a block for the real front-end (G)."""
+    env = {}
+    r = common.run_tlc("MemDeps", "MemDeps.cfg" if tier == "quick" else "MemDeps4.cfg", env, workers=4, heap="3g", tag="memdeps", timeout=3000)
+    if not r.ok:
+        raise common.MachineryError("MemDeps.tla: the pairwise-conflict criterion was rejected:\n" + r.out[-1500:])
+    q = common.run_tlc("MemDeps", "MemDepsRefute.cfg", env, workers=4, heap="3g", tag="memdepsr", timeout=3000, extra=("-continue",))
+    insts = re.findall(r"^inst = <<(.*)>>$", q.out, re.M)
+    if not insts:
+        raise common.MachineryError("MemDeps.tla: the closest-store-only variant was not refuted:\n" + q.out[-1500:])
+    blocks = []
+    for t in insts:
+        toks = []
+        for k, o in re.findall(r'\[k \|-> "(\w+)", o \|-> (\d+)\]', t):
+            toks.append("PUSH %x %s" % (int(o), {"W32": "MSTORE", "W1": "MSTORE8", "R32": "MLOAD"}[k]))
+        b = " ".join(toks)
+        if b not in blocks:
+            blocks.append(b)
+    return blocks, r.distinct + q.distinct
 
 
 def build_blocks(tier, seed):
@@ -95,6 +119,9 @@ def run(tier):
     t0 = time.time()
     seed = common.seed()
     cmds, gstats = build_blocks(tier, seed)
+    mblocks, mstates = memdeps_model(tier)
+    gstats["memdeps_counterexample_blocks"] = len(mblocks)
+    cmds += [{"cmd": "sfs", "text": t} for t in mblocks]
     sets = OPTSETS[:4] if tier == "quick" else OPTSETS
     def pick(i):
         return cmds if (i == 0 or tier != "quick") else corpus.sample(cmds, len(cmds) * 2 // 5, seed + i)
@@ -119,7 +146,7 @@ def run(tier):
                           lambda c: [c["_sub"] + " @" + c["_opt"]] + (["misaligned-overlap"] if findings.misaligned_overlap(c["_sub"]) else []))
     if multi == 0:
         raise common.MachineryError("vacuity guard: no specification with two or more memory operations was explored")
-    cov = {"states": st["states"], "transitions": st["transitions"], "traces_validated_against_impl": len(cases),
+    cov = {"states": st["states"] + mstates, "transitions": st["transitions"] + mstates, "memdeps_model_states": mstates, "traces_validated_against_impl": len(cases),
            "samples": [{"sub_block": c["_sub"], "deps": c["_deps"], "options": c["_opt"], "memops": c["nops"]} for c in cases[:3] + cases[-3:]],
            "evaluations": cnt["specs"], "distinct_nontrivial": multi,
            "rule": "one evaluation = one sub-block specification produced by the real front-end; distinct = distinct (specification, sub-block); "
